@@ -13,6 +13,10 @@ for d in sorted(os.listdir("/verif/seeded")):
     if not os.path.isdir(p) or (only and d not in only and d.split("-")[0] not in only):
         continue
     meta = json.load(open(f"{p}/meta.json"))
+    if meta.get("obsolete"):
+        rows.append((d, "obsolete", meta["obsolete"][:110]))
+        print(f"{d:8s} {'obsolete':28s} {meta['obsolete'][:110]}", flush=True)
+        continue
     checks = [meta["property"]] + [c for c in meta.get("also_checks", []) if c != meta["property"]]
     patch = f"{p}/patch.diff"
     if subprocess.run(["git", "-C", "/repo", "apply", "--check", patch], capture_output=True).returncode != 0:
